@@ -250,6 +250,8 @@ PROPS["C13"]["thorough_engines"] = [_hist("lib", sc, "C13", w) for sc, w in [
     ("watcher_kind_change_keeps_paths", "after a watcher kind change the configured paths are registered with the new watcher"),
     ("mode_change_after_failed_unwatch", "a path whose mode changed while its unwatch failed stays registered after a later change"),
     ("change_during_apply_is_not_lost", "a configuration change made while the previous one is being applied is applied")]]
+PROPS["C18"]["fallback"] = PROPS["C18"]["fallback"] + [script_engine("cli_argv.py", "cli_argv", "C18.bounded.cli_child_and_shell_argv",
+    "the real binary: without a shell (-n, --shell=none) the child receives every argument byte for byte for 52 argument lists over 15 awkward strings (empty, spaces, quotes, $, *, newline, multi-byte, leading dashes); with --shell=<prog [options]> the shell is invoked as <options..> -c \"<words joined by one space>\" (6 cases)")]
 PROPS["C18"]["thorough_engines"] = PROPS["C18"]["fallback"]
 PROPS["C08"]["thorough_engines"] = PROPS["C08"]["fallback"]
 PROPS["C20"]["thorough_engines"] = [replay_engine("ignorefiles", "origins_markers_bounded", "C20.bounded.origins_and_types_equal_the_documented_tables",
